@@ -33,7 +33,7 @@ TOL = 1e-6
 
 def floors(tier):
     return {"trajectories": 200, "evaluations_compared": 2500, "multi_trial_searches_compared": 150, "probes": 80, "probe_evaluations_compared": 300,
-            "constant_probes": 10, "trajectories_with_gradient_reusing_forward_state": 50, "trajectories_with_starved_line_searches": 300, "failed_searches_compared_through": 3, "box_final_values_compared": 60, "__nontrivial__": 120}
+            "constant_probes": 10, "trajectories_with_gradient_reusing_forward_state": 50, "trajectories_with_starved_line_searches": 300, "trajectories_stopped_by_a_callback_and_continued_from_the_result": 40, "failed_searches_compared_through": 3, "box_final_values_compared": 60, "__nontrivial__": 120}
 
 
 def cases(tier, seed):
@@ -45,7 +45,10 @@ def cases(tier, seed):
                                            "cond": float(np.exp(rng.uniform(0, np.log(1e3)))), "box": "none", "start": "interior"},
                "maxcor": int(rng.integers(1, 9)), "x0scale": float(gen.pick(rng, [0.5, 1.0, 2.0])), "hostile": bool(i % 3 == 0),
                "fscale": float(10.0 ** rng.uniform(0, 13)) if i % 5 == 1 else 1.0, "prior_is_x0": bool(i % 7 == 2), "adjoint": bool(i % 4 == 3),
-               "maxls": int(gen.pick(rng, [1, 2, 2, 3])) if i % 3 == 1 else 20, "maxiter": 30 if i % 3 == 1 else 12}
+               "maxls": int(gen.pick(rng, [1, 2, 2, 3])) if i % 3 == 1 else 20, "maxiter": 30 if i % 3 == 1 else 12,
+               "stop_at_callback": int(rng.integers(1, 6)) if i % 4 == 2 else None,
+               "xunit": None}  # (variables in units of 1e-13..1e-17 were tried: the unit-length first trial of iteration 0 is then 1e13 units long and the
+        #  interpolated second trial is ill-conditioned in both implementations - not comparable; the wrapper-level effects of such scales are C15's)
     # starved line searches on a scaled Rosenbrock valley: a search that uses its two evaluations without finding a lower value makes
     # both implementations drop their memory and restart the iteration; the comparison goes on through such restarts
     for i in range(700 if tier == "quick" else 12000):
@@ -104,7 +107,7 @@ def scipy_trace(f, g, x0, maxcor, maxiter=12, bounds=None, gtol=1e-14, maxls=20)
     return pts, vals, res
 
 
-def port_trace(f, g, x0, maxcor, maxiter=12, hostile=False, x0_same_object=False, maxls=20):
+def port_trace(f, g, x0, maxcor, maxiter=12, hostile=False, x0_same_object=False, maxls=20, stop_at_callback=None):
     """Runs the port with interception of its line searches; returns (points, searches).
     hostile: the user's gradient is written into one reused work array (as many simulation codes do)."""
     import lbfgsb.main as M
@@ -170,14 +173,27 @@ def port_trace(f, g, x0, maxcor, maxiter=12, hostile=False, x0_same_object=False
                 gbuf["b"][:] = v
                 return gbuf["b"]
 
-            res = minimize_lbfgsb(x0=(x0 if x0_same_object else np.array(x0, copy=True)), fun=fun, jac=jac, maxcor=maxcor, ftol=0.0,
-                                  gtol=1e-14, maxiter=maxiter, maxls=maxls)
+            kw = dict(fun=fun, jac=jac, maxcor=maxcor, ftol=0.0, gtol=1e-14, maxiter=maxiter, maxls=maxls)
+            if stop_at_callback is None:
+                res = minimize_lbfgsb(x0=(x0 if x0_same_object else np.array(x0, copy=True)), **kw)
+            else:
+                # the user's callback stops the run after a few iterations; the run is then continued from the returned result
+                seen = {"n": 0}
+
+                def stopper(xk, state):
+                    seen["n"] += 1
+                    return seen["n"] >= stop_at_callback
+
+                res = minimize_lbfgsb(x0=(x0 if x0_same_object else np.array(x0, copy=True)), callback=stopper, **kw)
+                consts["stopped_by_callback_at_eval"] = len(pts)
+                if "CALLBACK" in str(res.message):
+                    res = minimize_lbfgsb(x0=np.array(res.x, copy=True), checkpoint=res, **kw)
     finally:
         np.seterr(**old)
     return pts, searches, res, consts, ic
 
 
-def compare_traces(out, name, ppts, searches, spts, svals, tags, label="evaluations_compared", maxcor=None, skipped_at=(), continue_after_failed_search=False, maxls=None, fg=None):
+def compare_traces(out, name, ppts, searches, spts, svals, tags, label="evaluations_compared", maxcor=None, skipped_at=(), continue_after_failed_search=False, maxls=None, fg=None, xscale=1.0):
     """Pairwise comparison with the deviation rules. Returns (#compared, #multi-trial searches fully compared, why stopped)."""
     # trial steps of every search of the port
     cut, why = None, None
@@ -229,7 +245,7 @@ def compare_traces(out, name, ppts, searches, spts, svals, tags, label="evaluati
     worst_before = 0.0
     for k in range(limit):
         a, b = ppts[k], spts[k]
-        err = float(np.max(np.abs(a - b)) / max(1.0, float(np.max(np.abs(b)))))
+        err = float(np.max(np.abs(a - b)) / max(xscale, float(np.max(np.abs(b)))))
         if in_roundoff(svals, k):
             why = why or "reference_roundoff_regime"
             break
@@ -290,7 +306,9 @@ def in_roundoff(svals, k):
     # ... and the recent values sit at the best value (two rejected trials far above it, as in a starved line search away from the
     # solution, are not the round-off regime)
     near_best = max(svals[k - 1], svals[k]) - best_now <= 1e-6 * scale
-    return bool(stalled and near_best)
+    # ... or, however early, the best value has moved by less than a few ulp of itself (a one-variable quadratic is solved in two steps)
+    resolution = k >= 2 and (best_before - best_now) <= 8 * 2.220446049250313e-16 * scale and near_best
+    return bool((stalled and near_best) or resolution)
 
 
 def probe_objective(spec):
@@ -351,6 +369,16 @@ def run(spec):
             gref = lambda z: gbase(z) + lam * (z - prior_ref)
         else:
             fref, gref = fobj, gobj
+        if spec.get("xunit"):
+            # the same problem with its variables measured in units of 1e-13 .. 1e-15 (u*f(x/u), gradient g(x/u)): every point, step and
+            # difference between consecutive trial points is of that size
+            u = float(spec["xunit"])
+            out.count("trajectories_in_tiny_length_units")
+            fu, gu, fru, gru = fobj, gobj, fref, gref
+            fobj, gobj = (lambda z: u * fu(z / u)), (lambda z: gu(z / u))  # objective in matching units: gradients stay O(1)
+            fref, gref = (lambda z: u * fru(z / u)), (lambda z: gru(z / u))
+            x0 = x0 * u
+            x0_port = np.array(x0, copy=True)
         if spec.get("adjoint"):
             # forward/adjoint pattern: the gradient routine reuses the state left by the preceding objective call (the package offers no
             # combined value-and-gradient callable); each implementation gets its own pair
@@ -361,13 +389,15 @@ def run(spec):
         if mls != 20:
             out.count("trajectories_with_starved_line_searches")
         ppts, searches, pres, consts, ic = port_trace(fobj, gobj, x0_port, spec["maxcor"], hostile=bool(spec.get("hostile")), x0_same_object=bool(spec.get("prior_is_x0")),
-                                                      maxls=mls, maxiter=mit)
+                                                      maxls=mls, maxiter=mit, stop_at_callback=spec.get("stop_at_callback"))
+        if consts.get("stopped_by_callback_at_eval") is not None:
+            out.count("trajectories_stopped_by_a_callback_and_continued_from_the_result")
         if spec.get("hostile"):
             out.count("trajectories_with_reused_gradient_buffer")
         spts, svals, sres = scipy_trace(fref, gref, x0, spec["maxcor"], maxls=mls, maxiter=mit)
         out.count("trajectories")
         ncomp, multi, why = compare_traces(out, name, ppts, searches, spts, svals, tags, maxcor=spec["maxcor"],
-                                           skipped_at=consts["skipped_updates_at_eval"], continue_after_failed_search=mls != 20, maxls=mls, fg=(fref, gref))
+                                           skipped_at=consts["skipped_updates_at_eval"], continue_after_failed_search=mls != 20, maxls=mls, fg=(fref, gref), xscale=float(spec.get("xunit") or 1.0))
         out.count("skipped_updates_seen", len(consts["skipped_updates_at_eval"]))
         if consts.get("unjustified_skips_at_eval") and not out.violations:
             out.violate("curvature_update_skipped_without_cause", f"{name}: a BFGS update was skipped at evaluation "
